@@ -562,6 +562,7 @@ type mapIter struct {
 	snap []*mentry
 	m    *smap
 	i    int
+	ts   *TermStore
 }
 
 func (it *mapIter) next() tuple {
@@ -577,10 +578,10 @@ func (it *mapIter) next() tuple {
 			}
 		}
 		if alive {
-			return tuple{true, e.k, e.v}
+			return tuple{it.ts.True, e.k, copyVal(e.v)}
 		}
 	}
-	return tuple{false, nil, nil}
+	return tuple{it.ts.False, nil, nil}
 }
 
 type stringIter struct {
@@ -595,7 +596,7 @@ func (it *stringIter) next() tuple {
 		it.in.unsupported("range over symbolic string")
 	}
 	if it.i >= len(s) {
-		return tuple{false, nil, nil}
+		return tuple{it.in.ts.False, nil, nil}
 	}
 	for j, r := range s[it.i:] {
 		_ = j
@@ -604,9 +605,9 @@ func (it *stringIter) next() tuple {
 		if r == 0xFFFD {
 			it.i = idx + 1
 		}
-		return tuple{true, it.in.ts.BVi(int64(idx), 64), it.in.ts.BVi(int64(r), 32)}
+		return tuple{it.in.ts.True, it.in.ts.BVi(int64(idx), 64), it.in.ts.BVi(int64(r), 32)}
 	}
-	return tuple{false, nil, nil}
+	return tuple{it.in.ts.False, nil, nil}
 }
 
 func showValue(v value) string {
